@@ -67,7 +67,23 @@ def run_C02(run):
                       CHECKER)
 
 
-TABLE = {"C02": run_C02}
+# ------------------------------------------------------------------------------------------ C10
+def run_C10(run):
+    stats = [run.build_trace("tr_C10", "Gen_C10_f32")]
+    trace_cov(run, stats)
+    gens = [os.path.join(run.dir, "Gen_C10_f32.v")] if stats[0] else []
+    run.prove(gens, ["C10/A_C10_defs.v"], ["C10/P_C10_det.v", "C10/P_C10_inverse.v", "C10/P_C10_invtr.v", "C10/P_C10_misc.v"], "C10/Properties_C10.v", timeout=1500)
+    fails = oracle_sweep(run, "C10", [("all", [])], run.tier)
+    run.fails = run.triage(fails)
+    run.assumptions = ["statements are about the exact real-number value of the traced float expression trees under det(M) <> 0; the rounding bound 'proportional to the condition number' is NOT proved (only exercised by the oracle with tolerance 64*eps*kappa)",
+                       "double precision shares the template code with float (same trace up to the kind annotation); it is exercised by the oracle only",
+                       "the aligned (SIMD-qualifier) inv3x3 specialisation only exists in GLM_FORCE_INTRINSICS builds and is covered under C03"]
+    return run.finish(TRUST_COMMON + ["oracle_C10.cpp: long-double Gauss-Jordan / exact integer cofactor references (violation search only)"],
+                      "theorems: all matrix entries universally quantified (symbolic), sizes 2,3,4 enumerated; oracle: random general/triangular/permutation-like matrices with kappa<=1e3 (float) / 1e6 (double) and integer unimodular matrices (exact comparison)",
+                      CHECKER)
+
+
+TABLE = {"C02": run_C02, "C10": run_C10}
 
 
 def replay(pid, path):
